@@ -255,7 +255,7 @@ H3 = Tuple[int, int, int]
 
 def c19_fa(subject: int, ops: H3, k: int) -> bool:
     """
-    pre: pinned(subject=subject, k=k, o0=ops[0], o1=ops[1])
+    pre: pinned(subject=subject, k=k, o0=ops[0], o1=ops[1], g0=ops[0] % 4)
     pre: ((0 <= subject) & (subject < 8)) & ((1 <= k) & (k <= 3))
     pre: enc.word_ranges(ops, k, NFAOPS)
     post: _
@@ -320,7 +320,7 @@ def rx_battery(r):
 
 def c19_regex(subject: int, ops: H3, k: int) -> bool:
     """
-    pre: pinned(subject=subject, k=k, o0=ops[0], o1=ops[1])
+    pre: pinned(subject=subject, k=k, o0=ops[0], o1=ops[1], g0=ops[0] % 4)
     pre: ((0 <= subject) & (subject < 5)) & ((1 <= k) & (k <= 3))
     pre: enc.word_ranges(ops, k, NRXOPS)
     post: _
@@ -425,7 +425,7 @@ def cfg_battery(g):
 
 def c19_cfg(subject: int, ops: H3, k: int) -> bool:
     """
-    pre: pinned(subject=subject, k=k, o0=ops[0], o1=ops[1])
+    pre: pinned(subject=subject, k=k, o0=ops[0], o1=ops[1], g0=ops[0] % 4)
     pre: ((0 <= subject) & (subject < 8)) & ((1 <= k) & (k <= 3))
     pre: enc.word_ranges(ops, k, NCFGOPS)
     post: _
@@ -492,7 +492,7 @@ def pda_battery(p):
 
 def c19_pda(subject: int, ops: H3, k: int) -> bool:
     """
-    pre: pinned(subject=subject, k=k, o0=ops[0], o1=ops[1])
+    pre: pinned(subject=subject, k=k, o0=ops[0], o1=ops[1], g0=ops[0] % 4)
     pre: ((0 <= subject) & (subject < 3)) & ((1 <= k) & (k <= 3))
     pre: enc.word_ranges(ops, k, NPDAOPS)
     post: _
@@ -511,7 +511,9 @@ NPDAOPS = len(PDA_OPS)
 
 def _sh(nsub, nops):
     def shards(tier):
-        base = product_pins(subject=list(range(nsub)), k=[1, 2])
+        # k=2: split by (first op mod 4) so that no shard holds more than ~nops*nops/4 histories
+        base = product_pins(subject=list(range(nsub)), k=[1]) + \
+            product_pins(subject=list(range(nsub)), k=[2], g0=[0, 1, 2, 3])
         if tier == "quick":
             return base
         return base + product_pins(subject=list(range(min(nsub, 3))), k=[3], o0=list(range(nops)),
